@@ -161,6 +161,8 @@ func (m *ConnackMessage) Encode(dst []byte) (int, error) {
 		return 0, err
 	}
 
+	// The destination is not necessarily zeroed.
+	dst[total] = 0
 	if m.sessionPresent {
 		dst[total] = 1
 	}
